@@ -144,7 +144,7 @@ GROUPS["hier"] = dict(
                    ["reg", "persistent", 1, [["rem", 1], ["erem", 2, 1], ["desp", 3]], 0],
                    ["reg", "cleanup", 2, [["desp", 1], ["desp", 2], ["erem", 3, 1], ["rem", 2]], 0]]),
 )
-# reactors added with App::add_reactor (three closures of ONE type, registered at start-up) next to ordinary systems: C13 C01
+# reactors added with App::add_reactor (four closures of ONE type, registered at start-up) next to ordinary systems: C13 C01 C07
 APP3 = [[["bc", 1]], [["bc", 1], ["eev", 1, 1]], [["res", 1], ["anyev", 1]], [["eev", 2, 1]]]
 GROUPS["app"] = dict(
     subst=dict(Bundles="B_One", InitOps="NoOps", AppRegs="App_Four"),
